@@ -11,6 +11,7 @@ def load_worlds():
     import worlds.enip_proto        # noqa: F401
     import worlds.enip_conc         # noqa: F401
     import worlds.enip_hostile      # noqa: F401
+    import worlds.stream            # noqa: F401
     _loaded = True
 
 
@@ -124,5 +125,32 @@ PROPS = {
                      'as service, path, type and values can be read off in order'],
         quick=dict(parts=[dict(world='c08', count=320)]),
         thorough=dict(parts=[dict(world='c08', count=16000)]),
+    ),
+    'C10': dict(
+        level='exploration',
+        rule=('one seed -> 4..16 cases: a library machine (11 elementary types, SSTRING, STRING, EPATH, EPATH_padded, status, '
+              'typed_data, CPF and item parsers, unconnected_send, enip_machine, CIP, octets, words, service request machines via '
+              'Object.parser) fed a reference-encoded element + tail through a chainable source that receives one tape-chosen '
+              'block at a time (whole / byte-at-a-time / random / two-way), with an integer, data-path or callable limit in '
+              '{0, half, exact-1, exact, exact+1, beyond}, a repeat count in {0,1,2,3,5} (int or data path), or EOF / a chained '
+              'non-iterable mid-element.  Independent accounting: source.sent == supplied - left, bytes left == input[sent:], '
+              'success => consumed <= limit, repeat=N => exactly N elements, identical outcome for every arrival schedule; '
+              'non-trivial = >= 4 cases'),
+        assumptions=['the (machine x limit x input) dimension is sampled, not enumerated; simulation adds the arrival / push-back / EOF dimension',
+                     'empty blocks are not chained (the real receive loops never chain one)'],
+        quick=dict(parts=[dict(world='c10', count=1600)]),
+        thorough=dict(parts=[dict(world='c10', count=80000)]),
+    ),
+    'C20': dict(
+        level='exploration',
+        rule=('one seed -> (a) 1..10 values (integers incl. 1e30, bytes that look like sizes/colons/type tags, empty and 1e4-byte '
+              'payloads, multi-byte text, null) serialised with tnetstrings.dump (gate: parse(dump(v)) == v), each + arbitrary tail '
+              'fed to tnet_machine under a tape-chosen arrival schedule: payload == v, consumed == len(dump(v)), tail untouched; '
+              '(b) 1..6 values sent to tnet_from over a simulated socket, chunked with gaps up to 3 simulated s, ignore '
+              'separators, timeout/latency settings, optional EOF inside the last message: exactly the values in order, None only '
+              'after a gap >= timeout, nothing for the cut message; non-trivial = >= 2 values compared'),
+        assumptions=['the pure dump/parse round trip (first sentence of C20) is used only as a gate for reference values, not claimed'],
+        quick=dict(parts=[dict(world='c20', count=1200)]),
+        thorough=dict(parts=[dict(world='c20', count=60000)]),
     ),
 }
